@@ -137,6 +137,8 @@ ReachSet(files, tx, T) ==
       Grow(R) == LET R2 == R \cup {f.max : f \in {g \in E : g.min = 1 \/ \E r \in R : g.min <= r + 1 /\ g.max > r}}
                  IN IF R2 = R THEN R ELSE Grow(R2)
   IN Grow({})
+\* a valid chain for the request exists (to the target when one is given)
+Reachable(files, tx, T) == IF tx # 0 THEN tx \in ReachSet(files, tx, T) ELSE ReachSet(files, tx, T) # {}
 MaxOf(S) == IF S = {} THEN 0 ELSE CHOOSE m \in S : \A x \in S : x <= m
 End(res) == IF res.plan = <<>> THEN 0 ELSE res.plan[Len(res.plan)].max
 
